@@ -36,7 +36,8 @@ BOUNDS = {
 COEFS = [-1.5, -.5, .25, .5, .8, 1., 2.]
 CONSTS = [0., 1., -3.5, 1e3]
 MATH_ENV = dict((k, getattr(math, k)) for k in dir(math) if not k.startswith('_'))
-USER_FUNCS = {'f': lambda v: 0.5 * v + 1.0, 'sat': lambda v: max(-5.0, min(5.0, v))}
+USER_FUNCS = {'f': lambda v: 0.5 * v + 1.0, 'sat': lambda v: max(-5.0, min(5.0, v)),
+              'growth': lambda a, b: (b / a - 1.) if a != 0 else float('nan')}      # a growth rate from a zero level is not a number
 
 
 def dress(core_eqs, kind, horizon, tol):
@@ -65,6 +66,9 @@ SPECIAL = [
     ('diverge-slow', Block([('x', '200.*x + 1.')], maxtime=2)),
     ('diverge-cubic-late', Block([('x', '1.0001*x*x*x + 1e-3'), ('y', '.5*y + 1.')], ics={'x': '1.2'}, maxtime=2)),
     ('decorative-overflow', Block([('x', '.5*x + 1e300'), ('d', '1e300*x')], maxtime=2)),
+    ('decorative-nan-ratio', Block([('x', '.5*x + 1e160'), ('dd', '(x*1e200)/(x*1e200)')], maxtime=2)),
+    ('decorative-nan-difference', Block([('x', '.5*x + 1e160'), ('y', '.5*y + 1.'), ('dd', 'x*1e200 - x*1e200 + y')], maxtime=2)),
+    ('userfunc-nan-decorative', Block([('x', '.5*x + 1.'), ('dd', 'growth(LAG_x, x)')], lags=[('LAG_x', 'x')], maxtime=3)),
     ('persistent-div0-not-last', Block([('r', 'd/h + 0*x'), ('d', '2.'), ('x', '.5*x + 1.')], exos=[('h', '[1., 1., 1., 0., 0.]')], maxtime=4)),
     ('persistent-log0-first', Block([('r', 'log10(h) + x'), ('x', '.5*x + 1.'), ('y', '.5*y + r')], exos=[('h', '[1., 1., 0., 0.]')], maxtime=3)),
     ('transient-div0', Block([('z', 't'), ('x', '1/z')], maxtime=3)),
@@ -165,10 +169,14 @@ def units(tier):
 
 # ---------------------------------------------------------------------------------------------
 
-def solve(block, red, tol, cap, funcs=False):
+def solve(block, red, tol, cap, funcs=False, tolsrc='text'):
     blk = Block.from_json(block.as_json())
     blk.tol = tol
+    if tolsrc != 'text':
+        blk.tol = '1e-2'           # the text states a loose tolerance; the solver attribute takes precedence
     s = EquationSolver(blk.text(), run_equation_reduction=red)
+    if tolsrc == 'attribute-after-parse':
+        s.ParameterErrorTolerance = float(tol)
     s.MaxIterations = cap
     if funcs:
         for k, f in USER_FUNCS.items():
@@ -273,10 +281,12 @@ def judge(block, series, red, tol, case):
     return viols, indet, simultaneous
 
 
-def run_case(label, block, red, tol, cap, funcs):
+def run_case(label, block, red, tol, cap, funcs, tolsrc='text'):
     case = {'label': label, 'block': block.as_json(), 'reduction': red, 'tol': tol, 'cap': cap, 'funcs': funcs}
+    if tolsrc != 'text':
+        case['tolsrc'] = tolsrc
     try:
-        s = solve(block, red, tol, cap, funcs)
+        s = solve(block, red, tol, cap, funcs, tolsrc)
     except Exception as e:
         return 'raised:' + type(e).__name__, [], 0, False
     viols, indet, sim = judge(block, s.TimeSeries, red, tol, case)
@@ -309,6 +319,18 @@ def run_unit(unit, tier):
                     res['nontrivial'] += 1
                 res['indeterminate'] += indet
                 core.bump(res['outcomes'], '%s:%s' % (label, outcome))
+                res['violations'].extend(viols[:2])
+            if kind == 'plain':
+                # the tolerance given through the solver attribute after the block has been parsed (the text states a looser one)
+                red, tol, cap = True, min((c[1] for c in unit['cfgs']), key=float), max(c[2] for c in unit['cfgs'])
+                blk = dress(eqs, kind, unit['horizon'], tol)
+                dig.add((blk.key(), red, tol, cap, 'attr'))
+                outcome, viols, indet, sim = run_case(label, blk, red, tol, cap, False, tolsrc='attribute-after-parse')
+                res['evaluations'] += 1
+                if outcome.startswith('returned') and sim:
+                    res['nontrivial'] += 1
+                res['indeterminate'] += indet
+                core.bump(res['outcomes'], '%s:tolerance-by-attribute:%s' % (label, outcome))
                 res['violations'].extend(viols[:2])
         if cases:
             res['samples'] = [{'block': dress(cases[-1][1], cases[-1][2], unit['horizon'], '1e-4').text()}]
@@ -368,4 +390,4 @@ def replay(case):
     if case.get('label') == 'sweep':
         return run_sweep(case['first'], case['second'], case['reduction'], case['tol'], case['cap'])[1][:1]
     blk = Block.from_json(case['block'])
-    return run_case(case['label'], blk, case['reduction'], case['tol'], case['cap'], case.get('funcs', False))[1][:1]
+    return run_case(case['label'], blk, case['reduction'], case['tol'], case['cap'], case.get('funcs', False), case.get('tolsrc', 'text'))[1][:1]
